@@ -304,7 +304,7 @@ pub fn drive_c17(args: &[String]) {
     // work list: (symbol, is corpus, depth in the cover tree)
     let mut list: std::collections::VecDeque<(PartialDSym, bool, usize, Option<Value>)> = corpus3d().into_iter().map(|s| (s, true, 0, None)).collect();
     if let Some(p) = arg(args, "--prisms") {
-        let mut fam = prism_family(&p, 2);
+        let mut fam = prism_family(&p, arg_usize(args, "--prism-sheets", 2));
         let cap = arg_usize(args, "--prism-cap", 150);
         if fam.len() > cap { fam.shuffle(&mut rng); fam.truncate(cap); }
         // deep in the tree already: the cover tree of these is not followed further
@@ -360,4 +360,35 @@ pub fn drive_c17(args: &[String]) {
     }
     sink.flush();
     println!("{}", json!({"events": sink.n}));
+}
+
+
+/// development aid: verdicts of is_euclidean over all covers with up to `--sheets` sheets of the prism family (tally only)
+pub fn explore_prisms(args: &[String]) {
+    let p = arg(args, "--prisms").unwrap();
+    let sheets = arg_usize(args, "--sheets", 3);
+    let maxn = arg_usize(args, "--maxn", 24);
+    let mut fam = prism_family(&p, sheets);
+    if arg(args, "--corpus").is_some() {
+        fam.clear();
+        for s in corpus3d() { let d = dual(&s); for c in small_covers(&s, 2).into_iter().take(6) { fam.push((json!(null), c)); } fam.push((json!(null), s)); fam.push((json!(null), d)); }
+    }
+    let mut tally: std::collections::BTreeMap<String, usize> = Default::default();
+    let mut fam: Vec<_> = fam.into_iter().filter(|(_, s)| s.size() <= maxn).collect();
+    let nren = arg_usize(args, "--renumber", 0);
+    if nren > 0 {
+        let mut rng = rng(171);
+        let base = std::mem::take(&mut fam);
+        for (b, s) in base { for _ in 0..nren { fam.push((b.clone(), renumber(&s, &rand_perm(s.size(), &mut rng)))); } fam.push((b, s)); }
+    }
+    eprintln!("{} symbols", fam.len());
+    let results: Vec<(String, String)> = std::thread::scope(|sc| {
+        let hs: Vec<_> = fam.chunks((fam.len() + 11) / 12).map(|ch| sc.spawn(move || ch.iter().map(|(_, s)| {
+            let v = verdict(s);
+            (match &v { Ok((c, why)) => format!("{c}: {why}"), Err(m) => format!("panic: {m}") }, s.to_string())
+        }).collect::<Vec<_>>())).collect();
+        hs.into_iter().flat_map(|h| h.join().unwrap()).collect()
+    });
+    for (k, s) in results { if !k.starts_with("yes") { println!("{k}  {s}"); } *tally.entry(k).or_insert(0) += 1; }
+    println!("{:?}", tally);
 }
